@@ -491,6 +491,20 @@ YR_API int yr_scanner_scan_mem_blocks(
   }
   else
   {
+    // A previous scan may have been suspended with ERROR_BLOCK_NOT_READY and
+    // never resumed. In that case nothing has cleaned what it left behind, do
+    // it now so that this scan doesn't see matches from the abandoned one.
+    if (scanner->matches_notebook != NULL)
+    {
+      _yr_scanner_clean_matches(scanner);
+      yr_notebook_destroy(scanner->matches_notebook);
+      scanner->matches_notebook = NULL;
+    }
+
+    // These are per-scan values, they must not survive from a previous scan.
+    scanner->entry_point = YR_UNDEFINED;
+    scanner->last_error_string = NULL;
+
     // Create the notebook that will hold the YR_MATCH structures representing
     // each match found. This notebook will also contain snippets of the
     // matching data (the "data" field in YR_MATCH points to the snippet
